@@ -26,7 +26,8 @@ pub enum Bind {
 #[derive(Clone, Copy, Debug, PartialEq, Eq, Hash)]
 pub enum Action {
     Prepare { id: u32, n: usize, ok: bool },
-    Exec { id: u32, bind: Bind, null_first: bool, shim_ignores: bool },
+    /// shim_ignores: 0 = the shim reads every parameter, 1 = none, 2 = only the first
+    Exec { id: u32, bind: Bind, null_first: bool, shim_ignores: u8 },
     Long { id: u32, param: u16, chunk: u8 },
     Close { id: u32 },
 }
@@ -54,7 +55,11 @@ impl Action {
                 id,
                 bind,
                 if *null_first { ",first NULL" } else { "" },
-                if *shim_ignores { ",shim ignores params" } else { "" }
+                match *shim_ignores {
+                    0 => "",
+                    1 => ",shim ignores params",
+                    _ => ",shim reads only the first param",
+                }
             ),
             Action::Long { id, param, chunk } => format!("LONG_DATA(id={},param={},{})", id, param, if *chunk < 3 { format!("{:?}", String::from_utf8_lossy(&chunk_bytes(*chunk))) } else { format!("{} bytes", chunk_bytes(*chunk).len()) }),
             Action::Close { id } => format!("CLOSE(id={})", id),
@@ -135,7 +140,10 @@ pub fn run_history(hist: &[Action], st: &mut Stats) -> Result<Option<Registry>, 
         let payload = encode(&reg, a, step);
         let routed = reg.route(&payload);
         payloads.push(payload);
-        ignores.push(matches!(a, Action::Exec { shim_ignores: true, .. }));
+        ignores.push(match a {
+            Action::Exec { shim_ignores, .. } => *shim_ignores,
+            _ => 0,
+        });
         if routed == Routed::Fatal || routed == Routed::Refused {
             break;
         }
@@ -145,7 +153,7 @@ pub fn run_history(hist: &[Action], st: &mut Stats) -> Result<Option<Registry>, 
 
 /// Run a list of command payloads on a fresh connection of the real implementation and compare
 /// the complete observable trace with the registry model.
-pub fn run_payloads(payloads: &[Vec<u8>], ignores: &[bool], st: &mut Stats) -> Result<Option<Registry>, Violation> {
+pub fn run_payloads(payloads: &[Vec<u8>], ignores: &[u8], st: &mut Stats) -> Result<Option<Registry>, Violation> {
     let mut reg = Registry::default();
     let mut cmds: Vec<ClientCmd> = Vec::new();
     let mut expected = vec![auth_cb()];
@@ -158,11 +166,17 @@ pub fn run_payloads(payloads: &[Vec<u8>], ignores: &[bool], st: &mut Stats) -> R
         match routed {
             Routed::Cb(cb) => {
                 if let Cb::Execute { id, .. } = &cb {
-                    let ign = ignores.get(step).copied().unwrap_or(false);
+                    let ign = ignores.get(step).copied().unwrap_or(0);
                     skip_iter.push(ign);
-                    if ign {
+                    if ign == 1 {
                         expected.push(Cb::Execute { id: *id, params: vec![] });
                         continue;
+                    }
+                    if ign == 2 {
+                        if let Cb::Execute { id, params } = &cb {
+                            expected.push(Cb::Execute { id: *id, params: params.iter().take(1).cloned().collect() });
+                            continue;
+                        }
                     }
                 }
                 expected.push(cb);
@@ -508,7 +522,7 @@ impl Family for Histories {
 }
 
 fn ex(id: u32, bind: Bind) -> Action {
-    Action::Exec { id, bind, null_first: false, shim_ignores: false }
+    Action::Exec { id, bind, null_first: false, shim_ignores: 0 }
 }
 
 /// many open statements; many prepare/close cycles next to a long-lived statement
@@ -598,7 +612,7 @@ pub fn scale_types() -> Vec<(String, Vec<Action>)> {
         for i in 0..len {
             let id = 1 + ((i * 7 + i / 5) % 4) as u32;
             let bind = if i % 5 == 0 { binds[(i / 5) % 5] } else { Bind::Reuse };
-            h.push(Action::Exec { id, bind, null_first: i % 11 == 0, shim_ignores: i % 13 == 0 });
+            h.push(Action::Exec { id, bind, null_first: i % 11 == 0, shim_ignores: (i % 13 == 0) as u8 });
         }
         v.push((format!("4 statements, {} executions mixing rebinds and reuses", len), h));
     }
